@@ -16,8 +16,11 @@ Definition g_dates (tf pf : list (list Z)) : Z -> out :=
   let tus := map tunit_of tf in
   let pus := map punit_of pf in
   fun o =>
-  OL (map (fun u => o_value (trunc_opt u o)) tus
-      ++ map (fun p => o_value (part_opt p o)) pus
+  (* trunc_u u o = trunc_ymd u (ord2ymd o) o and part_u p o = part_ymd p (ord2ymd o) o by definition:
+     ord2ymd is computed once per date *)
+  let t := ord2ymd o in
+  OL (map (fun u => o_value (match u with Some u => trunc_ymd u t o | None => VNull end)) tus
+      ++ map (fun p => o_value (match p with Some p => VInt (part_ymd p t o) | None => VNull end)) pus
       ++ map o_value [f_year o; f_month o; f_day o; f_yearmonth o; f_quarter o; f_weekday o]
       ++ [o_xval (cast_str (XV (VDate o))); o_xval (cast_date (cast_str (XV (VDate o))))]).
 
